@@ -53,7 +53,7 @@ def main():
     ck.cov['trusted_base'] = ['Coq 8.16.1 kernel + VM', 'CliModel.v hand model of the four main() functions, tied by this run', 'extraction + clidrv.ml',
                               'the OS: exit status truncation to 8 bits, file creation', 'g++ 12 builds of hexasm/xcmp/xrun/hexsim from the working tree']
     ck.assumptions = ['accepted/rejected classification of the test sources is by construction (valid programs / programs with one injected error)',
-                      'listing modes other than -S/--instrs are not judged; unwritable output paths are outside the quantifier']
+                      'listing modes other than -S/--instrs are not judged']
     ok = ck.proofs()
     ck.log('proofs', 'ok' if ok else 'BROKEN')
     hv, log = vlib.ocaml_build()
@@ -74,6 +74,28 @@ def main():
         for argv in argv_shapes('in.src', ck.thorough()):
             cases.append(('xcmp', cls, ev, argv, src, True))
         cases.append(('xrun', cls, ev, ['in.src'], src, True))
+    # the file named by -o cannot be written: a missing directory, a directory, the empty name
+    UNW = [['in.src', '-o', 'nodir/out.bin'], ['-o', 'adir', 'in.src'], ['in.src', '-o', ''], ['--output', 'nodir/x', 'in.src'], ['in.src', '--output', '.']]
+    for argv in UNW:
+        cases.append(('hexasm', 'accept', 7, argv, asm_exit(7), True))
+        cases.append(('hexasm', 'reject', None, argv, b'LDAC\n', True))
+        cases.append(('xcmp', 'accept', 1, argv, x_exit(1), True))
+        cases.append(('xcmp', 'reject', None, argv, b'proc main() is @\n', True))
+    # hexsim / xrun argument shapes (the binary exits with 9 after 6 instructions)
+    def tiny_bin(v):
+        body = bytes([0x97, 0, 0, 0, 0xff, 0x3f, 0, 0, 0x30 | v, 0x11, 0x82, 0x30, 0xD3, 0, 0, 0])
+        return (4).to_bytes(4, 'little') + body
+    for argv in (['in.bin'], ['in.bin', '--max-cycles', '100'], ['--max-cycles', '100', 'in.bin'], ['--max-cycles', 'abc', 'in.bin'], ['in.bin', '--max-cycles'],
+                 ['-t', 'in.bin'], ['in.bin', '--trace'], ['in.bin', 'extra.bin'], ['--max-cycles', '12abc', 'in.bin'], ['--max-cycles', ' 7', 'in.bin'], ['--max-cycles', '-1', 'in.bin'],
+                 ['--max-cycles', '99999999999999999999999', 'in.bin'], ['--max-cycles', '18446744073709551615', 'in.bin'], ['--max-cycles', '18446744073709551616', 'in.bin'],
+                 ['--max-cycles', '', 'in.bin'], ['--max-cycles', '+50', 'in.bin'], ['--max-cycles', '- 5', 'in.bin'], ['-d', 'in.bin'], ['in.bin', '--dump'], ['-h'], ['in.bin', '--help'], [],
+                 ['--bogus', 'in.bin']):
+        cases.append(('hexsim', 'accept', 9, argv, tiny_bin(9), True))
+    cases.append(('hexsim', 'accept', 9, ['missing.bin'], b'', False))
+    cases.append(('hexsim', 'accept', 9, ['-d', 'missing.bin'], b'', False))
+    for argv in (['in.src', '--max-cycles', 'abc'], ['--max-cycles', '100000', 'in.src'], ['in.src', '--max-cycles'], ['in.src', '--bogus'], ['in.src', 'second.src'], ['--max-cycles', '', 'in.src'],
+                 ['-h'], [], ['--max-cycles', '12000abc ', 'in.src']):
+        cases.append(('xrun', 'accept', 5, argv, x_exit(5), True))
     cases.append(('hexasm', 'accept', 0, ['missing.src'], b'', False))
     cases.append(('xcmp', 'accept', 0, ['missing.src', '-o', 'out.bin'], b'', False))
     # model expectations
@@ -101,7 +123,8 @@ def main():
         d = os.path.join(base, 'c%d' % k)
         os.makedirs(d)
         if exists:
-            open(os.path.join(d, 'in.src'), 'wb').write(src)
+            open(os.path.join(d, 'in.bin' if tool == 'hexsim' else 'in.src'), 'wb').write(src)
+        os.makedirs(os.path.join(d, 'adir'))
         stale = (k % 2 == 1)
         if stale:
             # an older binary already sits where the output goes: a rejected run must leave it as it is
@@ -138,7 +161,11 @@ def main():
                     viol = 'rejected source but files were created, truncated or rewritten: %s' % changed
         if tool in ('hexasm', 'xcmp') and not exists and (rc == 0 or not err.strip() or changed):
             viol = 'input file does not exist: status %d, diagnostic %r, files %s (expected a diagnostic, non-zero status, nothing written)' % (rc, err.decode('latin1')[:60], changed)
-        if tool == 'xrun':
+        outarg = next((argv[i + 1] for i in range(len(argv) - 1) if argv[i] in ('-o', '--output')), None)
+        if tool in ('hexasm', 'xcmp') and exists and outarg in ('nodir/out.bin', 'adir', '', 'nodir/x', '.') and 'in.src' in argv:
+            if rc == 0 or not err.strip() or changed:
+                viol = 'the file named by -o (%r) cannot be written, yet status %d, diagnostic %r, files changed %s (expected a diagnostic and a non-zero status)' % (outarg, rc, err.decode('latin1')[:60], changed)
+        if tool == 'xrun' and argv == ['in.src']:
             if cls == 'accept' and rc != (ev & 0xff):
                 viol = 'xrun exit status %d, the program exits with %d' % (rc, ev)
             if cls == 'reject' and (rc == 0 or not err.strip()):
